@@ -93,7 +93,10 @@ class Ref:
                             env_stack[-1]["labels"][b[1]] = f"{env_stack[-1]['id']}/{b[1]}"
                     self.expand(branch, env_stack, out, scope_path)
             elif k == "const":
-                env_stack[-1]["consts"][st[1]] = st[2]
+                v = st[2]
+                if isinstance(v, str) and self.lookup_const(v, env_stack) is not None:
+                    v = self.lookup_const(v, env_stack)  # `name := other` is evaluated where it is written
+                env_stack[-1]["consts"][st[1]] = v
             elif k == "label":
                 key = f"{env_stack[-1]['id']}/{st[1]}"
                 env_stack[-1]["labels"][st[1]] = key
